@@ -162,6 +162,27 @@ pub fn build(repo: &Path, root: &Path, with_big: bool) -> Tree {
         fs::hard_link(&src, root.join("hard").join(&f.dir).join(&f.file)).unwrap();
         fs::copy(&src, root.join("copy").join(&f.dir).join(&f.file)).unwrap();
     }
+    // "shadow" files: a DIFFERENT file with the same base name at the place where a purely lexical
+    // folding of `symdir_<d>/../<d>/<file>` would land (the OS resolves `..` after following the
+    // symlink, so the real file is fx/<d>/<file>)
+    for f in &fixtures {
+        let src = fx.join(&f.dir).join(&f.file);
+        let dst_dir = root.join(&f.dir);
+        fs::create_dir_all(&dst_dir).unwrap();
+        let text = fs::read(&src).unwrap();
+        let shadow: Vec<u8> = if f.file.ends_with(".json") {
+            text
+        } else if f.is_schema {
+            let t = String::from_utf8_lossy(&text).to_string();
+            let t2 = if t.contains(": String") { t.replace(": String", ": Int") } else { t.replace(": Int", ": String") };
+            format!("{}\n# shadow copy\n", t2).into_bytes()
+        } else {
+            let mut t = text;
+            t.extend_from_slice(b"\n# shadow copy: same base name, different content\n");
+            t
+        };
+        fs::write(dst_dir.join(&f.file), shadow).unwrap();
+    }
     // broken inputs
     let bad = root.join("bad");
     fs::create_dir_all(bad.join("alias")).unwrap();
@@ -202,7 +223,7 @@ pub fn build(repo: &Path, root: &Path, with_big: bool) -> Tree {
     }
 }
 
-pub const SPELLINGS: usize = 9;
+pub const SPELLINGS: usize = 10;
 
 impl Tree {
     /// The `k`-th way of naming fixture file `dir/file`.
@@ -217,7 +238,17 @@ impl Tree {
             5 => format!("{}/copy/{}/{}", r, dir, file),
             6 => format!("fx/{}/{}", dir, file),
             7 => format!("{}/symdir_{}/{}", r, dir, file),
+            8 => format!("{}/symdir_{}/../{}/{}", r, dir, dir, file),
             _ => format!("{}/fx//{}/{}", r, dir, file),
+        }
+    }
+    /// The shadow file of `dir/file` (a different file, same base name), in two spellings.
+    pub fn shadow(&self, dir: &str, file: &str, k: usize) -> String {
+        let r = self.root.display().to_string();
+        if k % 2 == 0 {
+            format!("{}/{}/{}", r, dir, file)
+        } else {
+            format!("{}/./{}/{}", r, dir, file)
         }
     }
     pub fn abs(&self, rel: &str) -> String {
